@@ -58,17 +58,19 @@ impl ImmutableListMapBuilder {
         let mut entries = self.entries;
         entries.sort_unstable_by_key(|x| x.0);
         assert!(entries.len() < u32::MAX as usize);
-        assert!(!entries.is_empty());
         let mut offsets = vec![u32::MAX; self.num_keys];
-        let mut last_key = entries[0].0;
-        offsets[last_key as usize] = 0;
         let mut values = vec![];
-        for (index, (key, value)) in entries.iter().enumerate() {
-            if last_key != *key {
-                last_key = *key;
-                offsets[*key as usize] = index as u32;
+        // An empty map has no first key; every offset then ends up as 0 below
+        if let Some(&(first_key, _)) = entries.first() {
+            let mut last_key = first_key;
+            offsets[last_key as usize] = 0;
+            for (index, (key, value)) in entries.iter().enumerate() {
+                if last_key != *key {
+                    last_key = *key;
+                    offsets[*key as usize] = index as u32;
+                }
+                values.push(*value);
             }
-            values.push(*value);
         }
         for i in (0..offsets.len()).rev() {
             if offsets[i] == u32::MAX {
